@@ -207,9 +207,10 @@ package stree
 //@   loop 1: invariant [C01,C04] spine: goat != nil && goat in D0 && (par == root ==> goat == root.right) && (par != root ==> par in D0 && par.left == goat && par != goat)
 //@   loop 1: invariant [C01,C04] least: forall k int :: {k in K0} k in K0 ==> k in goat.keys || k > rank(cmp, goat.X)
 //@   loop 1: decreases cntOf(goat)
-//@   at after "goat.right = nil": ghost gk = rank(cmp, goat.X)
-//@   at after "goat.right = nil": assert [C01,C04] forall k int :: {k in K0} k in K0 ==> k >= gk
-//@   at after "goat.right = nil": assert [C01,C04] forall y *node[T] :: {y in D0} y in D0 && goat in y.desc && y != goat ==> y.left != nil && (y.left == goat || goat in y.left.desc) && gk in y.keys && !(inK(y.right, gk))
+//@   at loop 1 exit: ghost gk = rank(cmp, goat.X)
+//@   at loop 1 exit: assert [C01,C04] forall k int :: {k in K0} k in K0 ==> k >= gk
+//@   at loop 1 exit: assert [C01,C04] forall y *node[T] :: {y in D0} y in D0 && goat in y.desc && y != goat ==> gk in y.keys && gk < rank(cmp, y.X)
+//@   at loop 1 exit: assert [C01,C04] forall y *node[T] :: {y in D0} y in D0 && goat in y.desc && y != goat ==> y.left != nil && goat in y.left.desc && !(inK(y.right, gk)) && !(inD(y.right, goat))
 //@   at after "goat.right = nil": ghost every(root.keys) = lambda y *node[T] :: ite(y in D0 && goat in y.desc && y != goat, setdel(y.keys, gk), y.keys)
 //@   at after "goat.right = nil": ghost every(root.cnt) = lambda y *node[T] :: ite(y in D0 && goat in y.desc && y != goat, y.cnt - 1, y.cnt)
 //@   at after "goat.right = nil": ghost every(root.desc) = lambda y *node[T] :: ite(y in D0 && goat in y.desc && y != goat, setdel(y.desc, goat), y.desc)
